@@ -49,7 +49,7 @@ func init() {
 		CaseTimeout: 240 * time.Second,
 		Run:         runC14,
 		Floors: func(tier string) map[string]int {
-			m := map[string]int{"syncs_judged": 300, "uploads_seen": 150, "restores_seen": 20, "converged_identical": 80, "adopted_service": 20, "hwm_samples": 1000, "client_file": 20, "client_cloud": 20, "batches_over_256": 2, "lost_ack_then_converged": 4, "snapshot_uploads": 20, "background_converged": 4, "fresh_primary_adopted_existing_service": 2, "background_outage_batches": 2, "commit_inside_snapshot_upload": 1}
+			m := map[string]int{"syncs_judged": 300, "uploads_seen": 150, "restores_seen": 20, "converged_identical": 80, "adopted_service": 20, "hwm_samples": 1000, "client_file": 20, "client_cloud": 20, "batches_over_256": 2, "lost_ack_then_converged": 4, "snapshot_uploads": 20, "background_converged": 4, "fresh_primary_adopted_existing_service": 2, "background_outage_batches": 2, "commit_inside_snapshot_upload": 1, "rel_stale-hwm": 4}
 			for _, r := range c14Relations {
 				m["rel_"+r] = 3
 			}
@@ -979,10 +979,45 @@ func runC14(c *core.Case) {
 		} else if rel == "big-batch" && c.Tier != "thorough" {
 			rel = "behind"
 		}
+		if round == 1 && c.Index%8 == 3 {
+			rel = "stale-hwm"
+		}
 		hist = append(hist, rel)
 		expect := "never"
 		maxSyncs := 4
 		switch rel {
+		case "stale-hwm":
+			// Four single-transaction uploads (the high-water mark follows), then the
+			// service loses the newest three and another primary extends it by one:
+			// this node is restored to a position two below its high-water mark. Its
+			// next commits have IDs at or below that stale mark; a retention sweep
+			// must not take them for backed up.
+			for i := 0; i < 4; i++ {
+				if err := commitN(P, 1); err != nil {
+					c.Violate("C14/commit-failed", fmt.Sprintf("%s: %v", rel, err), detail(nil))
+					return
+				}
+				if !converge(P, "stale-hwm (upload)", maxSyncs, "never") {
+					return
+				}
+			}
+			svc.dropNewest("db", 3)
+			if !extendViaShadow(1) {
+				return
+			}
+			if !converge(P, "stale-hwm (restore)", maxSyncs, "must") {
+				return
+			}
+			if err := openWriter(P, false); err != nil {
+				c.Violate("C14/setup", "reattach writer: "+err.Error(), detail(nil))
+				return
+			}
+			if err := commitN(P, 2); err != nil {
+				c.Violate("C14/commit-failed", fmt.Sprintf("%s: %v", rel, err), detail(nil))
+				return
+			}
+			time.Sleep(2 * time.Millisecond)
+			_ = P.n.Store.EnforceRetention(context.Background())
 		case "behind":
 			if err := commitN(P, 1+c.Rng.IntN(6)); err != nil {
 				c.Violate("C14/commit-failed", fmt.Sprintf("%s: %v", rel, err), detail(nil))
